@@ -105,6 +105,20 @@ def run(rep: Report, tier: str) -> None:
         ev, raw = fnlog.events_for_cfg(cid, cfg, False, True, classes)
         events += ev
         rep.case((cfg["op"], json.dumps(cfg, sort_keys=True, default=str)))
+    hist_ev = fnlog.other_history_events(cfgs if tier == "quick" else cfgs[:: 4], False, True, classes) if tier == "quick" else []
+    if tier != "quick":   # thorough: every 4th configuration keeps its id
+        sub = cfgs[::4]
+        raw = fnlog.other_history_events(sub, False, True, fnlog.Classes(raw=True))
+        for e in raw:
+            real_cid = (e[2] - 1) * 4 + 1
+            _, ct = fnlog.tol_of(cfgs[real_cid - 1])
+            e[2] = real_cid
+            if isinstance(e[4], list):
+                e[4] = classes.cls((real_cid, e[3]), e[4][1], ct)
+        hist_ev = raw
+    events += hist_ev
+    events.sort(key=lambda e: e[2])     # stable: per configuration id, this process's events first, then the other history's
+    rep.extra["events_from_the_reverse_order_history"] = len(hist_ev)
     validate(rep, events, cfg_of, "C02")
     rep.extra["events"] = len(events)
     rep.extra["gradient_slots_skipped_as_ill_conditioned"] = fnlog.SKIPPED["ill_conditioned_gradient_slots"]
